@@ -11,6 +11,7 @@ encrypted-deal term `e`.  Helper lemmas: `Proofs/VssSym.lean`.
 import DosModel.Gen.VssFacts
 import DosModel.Proofs.VssSym
 import DosModel.Proofs.VssKnows
+import DosModel.Proofs.VssAgg
 import Mathlib.Algebra.Order.Field.Rat
 
 namespace Dos.Props.C08
@@ -281,7 +282,12 @@ dealer's deal for member `i` as in 1b, presenting it (or any `e` built from its 
 ciphertext) fails – before `VerifyDeal` – as soon as ONE of the following holds: the opener is
 another member, believes in another dealer, has another member list, the nonce was changed, the
 DH bytes were changed under the original signature, the signature is not one of the dealer's
-key on these DH bytes, or the ciphertext is not a sealing at all. -/
+key on these DH bytes, or the ciphertext is not a sealing at all.
+Read exactly: "signature changed" means the `Signature` field is NOT a signature term of the dealer's key on the
+presented DH bytes – another signature OF THE DEALER on the same bytes (other randomness) is not a modification
+in this model and is accepted; that nobody else can produce one is the unforgeability assumption.  "Ciphertext
+changed" here is `junk` only; every other term is `cipher_not_under_deal_key_rejected` (1e′), two mixed deals
+`swapped_cipher_rejected_eph` (1f′). -/
 theorem substitution_rejected (g : G) (hg : g ≠ 0) (dlong eph : F) (heph : eph ≠ 0) (L : List G) (i rnd : Nat)
     (pt0 : Plain F G) (e0 : EncDeal F G) (h0 : sealDeal g dlong L i eph rnd pt0 = some e0)
     (v : Verifier F G) (e : EncDeal F G) (rnd' : Nat)
@@ -341,6 +347,52 @@ theorem swapped_cipher_rejected (g : G) (hg : g ≠ 0) (dlong eph dlong1 eph1 : 
     subst hX
     exact hnocoll vpub1 hL1 hkey
 
+/-- **1e′. A changed ciphertext – ANY term, not only garbage.**  Under the dealer's DH bytes, whatever is
+presented in the `Cipher` field is rejected before `VerifyDeal` unless it is a sealing under exactly the key
+of this deal, `kdf(long • (eph • g), ctx(v))`, with the presented nonce and the context as associated data.
+(`substitution_rejected` covers `junk` only; a sealing under another key, nonce or context is covered here.
+That the key itself is out of an outsider's reach is `share_not_derivable`.)  Conversely every ciphertext a
+verifier opens under these DH bytes is such a sealing of the deal it returns. -/
+theorem cipher_not_under_deal_key_rejected (g : G) (dlong eph : F) (L : List G) (i rnd : Nat)
+    (pt0 : Plain F G) (e0 : EncDeal F G) (h0 : sealDeal g dlong L i eph rnd pt0 = some e0)
+    (v : Verifier F G) (e : EncDeal F G) (rnd' : Nat) (hdh : e.dh = e0.dh) :
+    ((∀ d, e.cipher ≠ .seal ⟨v.long • (eph • g), v.ctx⟩ e.nonce v.ctx (.deal d)) →
+      ∃ err, processEncryptedDeal g v e rnd' = (v, .error err)) ∧
+    (∀ d, decryptDeal g v e = .ok d → e.cipher = .seal ⟨v.long • (eph • g), v.ctx⟩ e.nonce v.ctx (.deal d)) := by
+  have key : ∀ d, decryptDeal g v e = .ok d →
+      e.cipher = .seal ⟨v.long • (eph • g), v.ctx⟩ e.nonce v.ctx (.deal d) := by
+    intro d hok
+    obtain ⟨_, X, hX, _, hcip⟩ := (decryptDeal_ok_iff g v e d).1 hok
+    unfold sealDeal at h0
+    rcases hL : L[i]? with _ | vpub
+    · simp [hL] at h0
+    · simp only [hL, Option.some.injEq] at h0
+      subst h0
+      rw [hdh] at hX
+      simp only [DhBytes.parse, Option.some.injEq] at hX
+      subst hX
+      exact hcip
+  refine ⟨fun hne => ?_, key⟩
+  apply rejected_before_verify
+  intro d hok
+  exact hne d (key d hok)
+
+/-- **1f′. `swapped_cipher_rejected` with the collision stated over the two EPHEMERALS**, as its docstring
+says: `v` is the addressee of `e0` (`L[i] = long • g`); the ciphertext of the second deal under the DH bytes
+of the first is rejected unless `eph • L[i] = eph1 • L1[i1]` – the two Diffie–Hellman values themselves
+collide.  Nothing about the opener's key is assumed beyond its being the addressee. -/
+theorem swapped_cipher_rejected_eph (g : G) (hg : g ≠ 0) (dlong eph dlong1 eph1 : F) (heph1 : eph1 ≠ 0)
+    (L L1 : List G) (i i1 rnd rnd1 : Nat) (pt0 pt1 : Plain F G) (e0 e1 : EncDeal F G)
+    (h0 : sealDeal g dlong L i eph rnd pt0 = some e0) (h1 : sealDeal g dlong1 L1 i1 eph1 rnd1 pt1 = some e1)
+    (v : Verifier F G) (e : EncDeal F G) (rnd' : Nat)
+    (hdh : e.dh = e0.dh) (hc : e.cipher = e1.cipher) (haddr : L[i]? = some (v.long • g))
+    (hnocoll : ∀ vpub vpub1, L[i]? = some vpub → L1[i1]? = some vpub1 → eph • vpub ≠ eph1 • vpub1) :
+    ∃ err, processEncryptedDeal g v e rnd' = (v, .error err) :=
+  swapped_cipher_rejected g hg dlong eph dlong1 eph1 heph1 L L1 i i1 rnd rnd1 pt0 pt1 e0 e1 h0 h1 v e rnd' hdh hc
+    (fun vpub1 hv1 => by
+      have := hnocoll (v.long • g) vpub1 haddr hv1
+      rwa [smul_comm] at this)
+
 /-- **2a. `approve_iff`.**  A verifier that has not yet received a deal (no aggregator) and whose
 index is inside its list answers an OPENED deal `d` with an approval iff the threshold is valid
 (`2 ≤ T ≤ n`), the deal's session id is the identifier of (dealer, members, commitments, T), the
@@ -370,6 +422,71 @@ theorem approve_iff (g : G) (v : Verifier F G) (e : EncDeal F G) (rnd : Nat) (d 
   · rintro ⟨hT, hsid, val, hsh, hchk⟩
     obtain ⟨v', r, hp, _, _, _, hiff⟩ := heq ⟨(v.index : Int), some val⟩ hsh (by simp) rfl
     exact ⟨v', r, hp, hiff.2 ⟨(v.index : Int), val, hsh, hT, hsid.symm, by omega, by omega, hchk⟩⟩
+
+/-- **2a′. The second deal.**  `approve_iff` speaks about a verifier without aggregator.  A verifier that
+already holds a deal (its aggregator stores one – which is the case after every `ProcessEncryptedDeal` that
+returned a response, `first_deal_is_stored`) answers NO further encrypted deal: whatever `e` is, the result
+is an error (`already`, or the decryption / share / index error that comes first), never a response, and the
+verifier – stored deal, responses, `approved` flag – is exactly what it was. -/
+theorem second_deal_never_answered (g : G) (v : Verifier F G) (a : Agg F G) (e : EncDeal F G) (rnd : Nat)
+    (hv : v.agg = some a) (hdeal : a.deal.isSome = true) :
+    ∃ err, processEncryptedDeal g v e rnd = (v, .error err) := by
+  unfold processEncryptedDeal
+  rcases decryptDeal g v e with err | d
+  · exact ⟨err, rfl⟩
+  · simp only
+    rcases hsh : d.share with _ | sh
+    · exact ⟨.noShare, rfl⟩
+    · simp only
+      by_cases hvn : sh.v.isNone = true
+      · exact ⟨.noShare, by simp [hvn]⟩
+      · by_cases hi : sh.i ≠ (v.index : Int)
+        · exact ⟨.index, by simp [hvn, hi]⟩
+        · refine ⟨.already, ?_⟩
+          rcases hval : sh.v with _ | val
+          · simp [hval] at hvn
+          · have hvd : verifyDeal g a d true = (a, some .already) := by
+              unfold verifyDeal
+              simp [hsh, hval, hdeal]
+            simp only [hvn, hi, hv, hvd, Bool.false_eq_true, if_false, if_true]
+            cases v
+            simp_all
+
+/-- every `ProcessEncryptedDeal` of a fresh verifier that returns a response stores the deal it opened -/
+theorem first_deal_is_stored (g : G) (v v' : Verifier F G) (e : EncDeal F G) (rnd : Nat) (r : Response F G)
+    (hv : v.agg = none) (h : processEncryptedDeal g v e rnd = (v', .ok r)) :
+    ∃ a d, v'.agg = some a ∧ decryptDeal g v e = .ok d ∧ a.deal = some d := by
+  unfold processEncryptedDeal at h
+  rcases hd : decryptDeal g v e with err | d
+  · simp [hd] at h
+  · simp only [hd] at h
+    rcases hsh : d.share with _ | sh
+    · simp [hsh] at h
+    · simp only [hsh] at h
+      by_cases hvn : sh.v.isNone = true
+      · simp [hvn] at h
+      · by_cases hi : sh.i ≠ (v.index : Int)
+        · simp [hvn, hi] at h
+        · rcases hval : sh.v with _ | val
+          · simp [hval] at hvn
+          · simp only [hvn, hi, hv, Bool.false_eq_true, if_false] at h
+            have hvd : (verifyDeal g (newAgg (S := F) v.dealer v.vs d.commits d.t d.sid) d true).1.deal = some d := by
+              unfold verifyDeal
+              simp only [hsh, hval, newAgg, Option.isSome_none, Bool.false_eq_true, false_and, if_false,
+                Option.isNone_none, if_true]
+              (repeat' split) <;> rfl
+            rcases hres : verifyDeal g (newAgg (S := F) v.dealer v.vs d.commits d.t d.sid) d true with ⟨a1, verr⟩
+            rw [hres] at hvd h
+            simp only at hvd h
+            by_cases halr : verr = some .already
+            · simp [halr] at h
+            · simp only [halr, if_false] at h
+              split at h
+              · simp at h
+              · rename_i a2 hadd
+                simp only [Prod.mk.injEq, Except.ok.injEq] at h
+                obtain ⟨_, _, ha2⟩ := addResponse_ok hadd
+                exact ⟨a2, d, by rw [← h.1], rfl, by rw [ha2]; exact hvd⟩
 
 /-- **2b. Otherwise a complaint or an error – never an approval.**  In every other case
 `ProcessEncryptedDeal` returns an error, or a response whose status is "complaint". -/
@@ -492,6 +609,19 @@ example : (do let e ← exE0; let v ← exV 7 3 exL
 example : (do let e ← sealDeal (1 : ℚ) 3 exL 1 11 0 (.deal { exDeal with share := some ⟨1, some (9 : ℚ)⟩ })
               let v ← exV 7 3 exL
               pure ((processEncryptedDeal 1 v e).2.toOption.map (·.status))) = some (some false) := by
+  decide +kernel
+-- 2a′: the verifier that approved `exE0` answers neither the same deal nor a second deal of the dealer again
+example : (do let e ← exE0; let v ← exV 7 3 exL
+              let v1 := (processEncryptedDeal 1 v e).1
+              let e2 ← sealDeal (1 : ℚ) 3 exL 1 12 0 (.deal exDeal)
+              pure ((v1.agg.bind (·.deal)).isSome, (processEncryptedDeal 1 v1 e).2.toOption.isNone,
+                    (processEncryptedDeal 1 v1 e2).2.toOption.isNone, (processEncryptedDeal 1 v1 e2).1 == v1)) =
+    some (true, true, true, true) := by
+  decide +kernel
+-- 1e′: a sealing of ANOTHER plaintext under another key, with the right nonce and context, is rejected
+example : (do let e ← exE0; let v ← exV 7 3 exL
+              let e' : EncDeal ℚ ℚ := { e with cipher := .seal ⟨99, v.ctx⟩ e.nonce v.ctx (.deal exDeal) }
+              pure (decryptDeal 1 v e')) = some (.error .open_) := by
   decide +kernel
 end Examples
 
